@@ -17,6 +17,7 @@ import SJ.Drv.C04
 import SJ.Drv.Typed
 import SJ.Drv.C07
 import SJ.Drv.StreamRaw
+import SJ.Drv.StreamTyped
 /-!
 `sjdriver` — reads case lines `op args… => impl-observation` on stdin, runs the Lean model and the
 executable specification on each, prints
@@ -47,6 +48,7 @@ def allHandlers : List (String × Handler) :=
     Typed.handlers,
     C07.handlers,
     StreamRaw.handlers,
+    StreamTyped.handlers,
   ]
 
 def findHandler (op : String) : Option Handler := (allHandlers.find? (·.1 == op)).map (·.2)
